@@ -53,25 +53,45 @@ theorem backup_stream {st : PState} (hpc : st.peekCount ≤ 1) :
   · have hp1 : st.peekCount = 1 := by omega
     simp [stream, pending, hp1, top]
 
+/-- the part of the file-parser state the token-level actions leave alone -/
+def Fr (st st' : FState) : Prop := st'.ns = st.ns ∧ st'.aliases = st.aliases ∧ st'.inmsg = st.inmsg
+
+theorem Fr.refl (st : FState) : Fr st st := ⟨rfl, rfl, rfl⟩
+
+theorem Fr.trans {a b c : FState} (h1 : Fr a b) (h2 : Fr b c) : Fr a c :=
+  ⟨h2.1.trans h1.1, h2.2.1.trans h1.2.1, h2.2.2.trans h1.2.2⟩
+
+theorem fnext_stream' {st : FState} {x : Item} {s : List Item} (hpc : st.p.peekCount ≤ 2) (h : stream st.p = x :: s) :
+    ∃ st', FileParser.next st = .ok (x, st') ∧ stream st'.p = s ∧ top st'.p = x ∧
+      st'.p.peekCount = st.p.peekCount - 1 ∧ Fr st st' := by
+  obtain ⟨p', hn, a, b, c⟩ := next_stream hpc h
+  exact ⟨{ st with p := p' }, by simp [FileParser.next, liftP, hn], a, b, c, rfl, rfl, rfl⟩
+
 theorem fnext_stream {st : FState} {x : Item} {s : List Item} (hpc : st.p.peekCount ≤ 2) (h : stream st.p = x :: s) :
     ∃ st', FileParser.next st = .ok (x, st') ∧ stream st'.p = s ∧ top st'.p = x ∧
       st'.p.peekCount = st.p.peekCount - 1 := by
-  obtain ⟨p', hn, a, b, c⟩ := next_stream hpc h
-  exact ⟨{ st with p := p' }, by simp [FileParser.next, liftP, hn], a, b, c⟩
+  obtain ⟨st', a, b, c, d, _⟩ := fnext_stream' hpc h
+  exact ⟨st', a, b, c, d⟩
+
+theorem fbackup_stream' {st : FState} (hpc : st.p.peekCount ≤ 1) :
+    ∃ st', FileParser.backup st = .ok ((), st') ∧ stream st'.p = top st.p :: stream st.p ∧
+      st'.p.peekCount = st.p.peekCount + 1 ∧ Fr st st' := by
+  obtain ⟨p', hn, a, b⟩ := backup_stream hpc
+  exact ⟨{ st with p := p' }, by simp [FileParser.backup, liftP, hn], a, b, rfl, rfl, rfl⟩
 
 theorem fbackup_stream {st : FState} (hpc : st.p.peekCount ≤ 1) :
     ∃ st', FileParser.backup st = .ok ((), st') ∧ stream st'.p = top st.p :: stream st.p ∧
       st'.p.peekCount = st.p.peekCount + 1 := by
-  obtain ⟨p', hn, a, b⟩ := backup_stream hpc
-  exact ⟨{ st with p := p' }, by simp [FileParser.backup, liftP, hn], a, b⟩
+  obtain ⟨st', a, b, c, _⟩ := fbackup_stream' hpc
+  exact ⟨st', a, b, c⟩
 
 /-! ### the two loops -/
 
 /-- `for token.typ == itemComment { token = t.next() }` runs over the Comment tokens -/
-theorem skipComments_spec : ∀ (comments : List Item) (fuel : Nat) (token t : Item) (s : List Item) (st : FState),
+theorem skipComments_spec' : ∀ (comments : List Item) (fuel : Nat) (token t : Item) (s : List Item) (st : FState),
     comments.length + 1 ≤ fuel → st.p.peekCount ≤ 1 → top st.p = token →
     token :: stream st.p = comments ++ t :: s → (∀ c ∈ comments, c.typ = .tComment) → t.typ ≠ .tComment →
-    ∃ st', skipComments fuel token st = .ok (t, st') ∧ stream st'.p = s ∧ top st'.p = t ∧ st'.p.peekCount ≤ 1 := by
+    ∃ st', skipComments fuel token st = .ok (t, st') ∧ stream st'.p = s ∧ top st'.p = t ∧ st'.p.peekCount ≤ 1 ∧ Fr st st' := by
   intro comments
   induction comments with
   | nil =>
@@ -79,7 +99,7 @@ theorem skipComments_spec : ∀ (comments : List Item) (fuel : Nat) (token t : I
     simp only [List.nil_append, List.cons.injEq] at hs
     obtain ⟨rfl, hs⟩ := hs
     obtain ⟨f, rfl⟩ : ∃ f, fuel = f + 1 := ⟨fuel - 1, by simp at hf; omega⟩
-    refine ⟨st, ?_, hs, htop, hpc⟩
+    refine ⟨st, ?_, hs, htop, hpc, Fr.refl st⟩
     unfold skipComments
     have : (token.typ == ItemType.tComment) = false := by simpa using ht
     simp [this, pure, StateT.pure, Except.pure]
@@ -94,29 +114,36 @@ theorem skipComments_spec : ∀ (comments : List Item) (fuel : Nat) (token t : I
       cases hst : stream st.p with
       | nil => rw [hst] at hs; cases cs <;> simp at hs
       | cons x s1 => exact ⟨x, s1, rfl⟩
-    obtain ⟨st1, hn, hs1, ht1, hp1⟩ := fnext_stream (by omega) hx
-    obtain ⟨st', hr, a, b, c⟩ := ih f x t s st1 (by simp at hf ⊢; omega) (by omega) ht1
+    obtain ⟨st1, hn, hs1, ht1, hp1, hfr1⟩ := fnext_stream' (by omega) hx
+    obtain ⟨st', hr, a, b, c, hfr2⟩ := ih f x t s st1 (by simp at hf ⊢; omega) (by omega) ht1
       (by rw [hs1, ← hx]; exact hs) (fun c' hc' => hc c' (by simp [hc'])) ht
-    refine ⟨st', ?_, a, b, c⟩
+    refine ⟨st', ?_, a, b, c, hfr1.trans hfr2⟩
     unfold skipComments
     simp only [hty, if_true]
     show (FileParser.next >>= fun t => skipComments f t) st = _
     rw [fbind_run, hn]
     exact hr
 
+theorem skipComments_spec (comments : List Item) (fuel : Nat) (token t : Item) (s : List Item) (st : FState)
+    (hf : comments.length + 1 ≤ fuel) (hpc : st.p.peekCount ≤ 1) (htop : top st.p = token)
+    (hs : token :: stream st.p = comments ++ t :: s) (hc : ∀ c ∈ comments, c.typ = .tComment) (ht : t.typ ≠ .tComment) :
+    ∃ st', skipComments fuel token st = .ok (t, st') ∧ stream st'.p = s ∧ top st'.p = t ∧ st'.p.peekCount ≤ 1 := by
+  obtain ⟨st', a, b, c, d, _⟩ := skipComments_spec' comments fuel token t s st hf hpc htop hs hc ht
+  exact ⟨st', a, b, c, d⟩
+
 /-- the text-merging loop appends the values of the Text tokens that follow -/
-theorem collectText_spec : ∀ (texts : List Item) (fuel : Nat) (acc : Bytes) (nxt : Item) (s : List Item) (st : FState),
+theorem collectText_spec' : ∀ (texts : List Item) (fuel : Nat) (acc : Bytes) (nxt : Item) (s : List Item) (st : FState),
     texts.length + 1 ≤ fuel → st.p.peekCount ≤ 1 → stream st.p = texts ++ nxt :: s →
     (∀ x ∈ texts, x.typ = .tText) → nxt.typ ≠ .tText →
     ∃ st', collectText fuel acc st = .ok ((acc ++ texts.flatMap (·.val), nxt), st') ∧ stream st'.p = s ∧
-      top st'.p = nxt ∧ st'.p.peekCount ≤ 1 := by
+      top st'.p = nxt ∧ st'.p.peekCount ≤ 1 ∧ Fr st st' := by
   intro texts
   induction texts with
   | nil =>
     intro fuel acc nxt s st hf hpc hs _ hn
     obtain ⟨f, rfl⟩ : ∃ f, fuel = f + 1 := ⟨fuel - 1, by simp at hf; omega⟩
-    obtain ⟨st1, hnx, hs1, ht1, hp1⟩ := fnext_stream (st := st) (by omega) (by simpa using hs)
-    refine ⟨st1, ?_, hs1, ht1, by omega⟩
+    obtain ⟨st1, hnx, hs1, ht1, hp1, hfr1⟩ := fnext_stream' (st := st) (by omega) (by simpa using hs)
+    refine ⟨st1, ?_, hs1, ht1, by omega, hfr1⟩
     unfold collectText
     rw [fbind_run, hnx]
     have : (nxt.typ != ItemType.tText) = true := by simpa using hn
@@ -124,16 +151,24 @@ theorem collectText_spec : ∀ (texts : List Item) (fuel : Nat) (acc : Bytes) (n
   | cons x xs ih =>
     intro fuel acc nxt s st hf hpc hs hx hn
     obtain ⟨f, rfl⟩ : ∃ f, fuel = f + 1 := ⟨fuel - 1, by simp at hf; omega⟩
-    obtain ⟨st1, hnx, hs1, ht1, hp1⟩ := fnext_stream (st := st) (by omega) (by simpa using hs)
-    obtain ⟨st', hr, a, b, c⟩ := ih f (acc ++ x.val) nxt s st1 (by simp at hf ⊢; omega) (by omega) hs1
+    obtain ⟨st1, hnx, hs1, ht1, hp1, hfr1⟩ := fnext_stream' (st := st) (by omega) (by simpa using hs)
+    obtain ⟨st', hr, a, b, c, hfr2⟩ := ih f (acc ++ x.val) nxt s st1 (by simp at hf ⊢; omega) (by omega) hs1
       (fun y hy => hx y (by simp [hy])) hn
-    refine ⟨st', ?_, a, b, c⟩
+    refine ⟨st', ?_, a, b, c, hfr1.trans hfr2⟩
     unfold collectText
     rw [fbind_run, hnx]
     have : (x.typ != ItemType.tText) = false := by simpa using hx x (by simp)
     simp only [this, Bool.false_eq_true, if_false]
     rw [hr]
     simp [List.flatMap_cons, List.append_assoc]
+
+theorem collectText_spec (texts : List Item) (fuel : Nat) (acc : Bytes) (nxt : Item) (s : List Item) (st : FState)
+    (hf : texts.length + 1 ≤ fuel) (hpc : st.p.peekCount ≤ 1) (hs : stream st.p = texts ++ nxt :: s)
+    (hx : ∀ x ∈ texts, x.typ = .tText) (hn : nxt.typ ≠ .tText) :
+    ∃ st', collectText fuel acc st = .ok ((acc ++ texts.flatMap (·.val), nxt), st') ∧ stream st'.p = s ∧
+      top st'.p = nxt ∧ st'.p.peekCount ≤ 1 := by
+  obtain ⟨st', a, b, c, d, _⟩ := collectText_spec' texts fuel acc nxt s st hf hpc hs hx hn
+  exact ⟨st', a, b, c, d⟩
 
 /-! ### the text case of textOrTag -/
 
@@ -149,7 +184,7 @@ def textNode (comments : List Item) (t : Item) (texts : List Item) (nxt : Item) 
     `nxt :: s` unread, does not end the list, and returns `textNode`:
     the value is `joinLines (concatenated text) (a Comment came immediately before) (a Comment
     comes immediately after)`, positioned at the first Text token; no node if it is empty. -/
-theorem textOrTag_text_spec (pf : Bytes → Option UInt64) (ef fuel : Nat) (untl : List ItemType)
+theorem textOrTag_text_spec' (pf : Bytes → Option UInt64) (ef fuel : Nat) (untl : List ItemType)
     (token : Item) (st : FState) (comments : List Item) (t : Item) (texts : List Item) (nxt : Item) (s : List Item)
     (hpc : st.p.peekCount ≤ 1) (htop : top st.p = token)
     (hs : token :: stream st.p = comments ++ t :: (texts ++ nxt :: s))
@@ -157,7 +192,7 @@ theorem textOrTag_text_spec (pf : Bytes → Option UInt64) (ef fuel : Nat) (untl
     (hn : nxt.typ ≠ .tText) (hu : untl.contains .tText = false)
     (hf : comments.length + texts.length + 2 ≤ fuel) :
     ∃ st', textOrTag pf ef (fuel + 1) token untl st = .ok ((textNode comments t texts nxt, false), st') ∧
-      stream st'.p = nxt :: s ∧ st'.p.peekCount ≤ 2 := by
+      stream st'.p = nxt :: s ∧ st'.p.peekCount ≤ 2 ∧ Fr st st' := by
   -- seenComment: the token handed over is a Comment iff `comments` is not empty
   have hseen : (token.typ == ItemType.tComment) = !comments.isEmpty := by
     cases comments with
@@ -168,21 +203,21 @@ theorem textOrTag_text_spec (pf : Bytes → Option UInt64) (ef fuel : Nat) (untl
       simp only [List.cons_append, List.cons.injEq] at hs
       rw [hs.1, hc c (by simp)]; rfl
   -- skip the comments
-  obtain ⟨st1, hsk, hs1, ht1, hp1⟩ := skipComments_spec comments fuel token t (texts ++ nxt :: s) st (by omega) hpc htop hs hc
+  obtain ⟨st1, hsk, hs1, ht1, hp1, hfr1⟩ := skipComments_spec' comments fuel token t (texts ++ nxt :: s) st (by omega) hpc htop hs hc
     (by rw [ht]; decide)
   -- the look-ahead token2 and its backup
   obtain ⟨x2, s2, hx2⟩ : ∃ x2 s2, stream st1.p = x2 :: s2 := by
     rw [hs1]; cases texts with
     | nil => exact ⟨_, _, rfl⟩
     | cons y ys => exact ⟨_, _, rfl⟩
-  obtain ⟨st2, hn2, hs2, ht2, hp2⟩ := fnext_stream (by omega) hx2
-  obtain ⟨st3, hb3, hs3, hp3⟩ := fbackup_stream (st := st2) (by omega)
+  obtain ⟨st2, hn2, hs2, ht2, hp2, hfr2⟩ := fnext_stream' (by omega) hx2
+  obtain ⟨st3, hb3, hs3, hp3, hfr3⟩ := fbackup_stream' (st := st2) (by omega)
   rw [ht2, hs2, ← hx2, hs1] at hs3
   -- the Text tokens that follow
-  obtain ⟨st4, hct, hs4, ht4, hp4⟩ := collectText_spec texts fuel t.val nxt s st3 (by omega) (by omega) hs3 hts hn
-  obtain ⟨st5, hb5, hs5, hp5⟩ := fbackup_stream (st := st4) hp4
+  obtain ⟨st4, hct, hs4, ht4, hp4, hfr4⟩ := collectText_spec' texts fuel t.val nxt s st3 (by omega) (by omega) hs3 hts hn
+  obtain ⟨st5, hb5, hs5, hp5, hfr5⟩ := fbackup_stream' (st := st4) hp4
   rw [ht4, hs4] at hs5
-  refine ⟨st5, ?_, hs5, by omega⟩
+  refine ⟨st5, ?_, hs5, by omega, (((hfr1.trans hfr2).trans hfr3).trans hfr4).trans hfr5⟩
   have hnu : untl.contains t.typ = false := by rw [ht]; exact hu
   have htx : (t.typ == ItemType.tText) = true := by rw [ht]; rfl
   have hld : (t.typ == ItemType.tLeftDelim) = false := by rw [ht]; rfl
@@ -203,6 +238,18 @@ theorem textOrTag_text_spec (pf : Bytes → Option UInt64) (ef fuel : Nat) (untl
   rw [C15.rawtext_spec]
   simp only [pure, StateT.pure, Except.pure, hseen, textNode]
   split <;> rfl
+
+theorem textOrTag_text_spec (pf : Bytes → Option UInt64) (ef fuel : Nat) (untl : List ItemType)
+    (token : Item) (st : FState) (comments : List Item) (t : Item) (texts : List Item) (nxt : Item) (s : List Item)
+    (hpc : st.p.peekCount ≤ 1) (htop : top st.p = token)
+    (hs : token :: stream st.p = comments ++ t :: (texts ++ nxt :: s))
+    (hc : ∀ c ∈ comments, c.typ = .tComment) (ht : t.typ = .tText) (hts : ∀ x ∈ texts, x.typ = .tText)
+    (hn : nxt.typ ≠ .tText) (hu : untl.contains .tText = false)
+    (hf : comments.length + texts.length + 2 ≤ fuel) :
+    ∃ st', textOrTag pf ef (fuel + 1) token untl st = .ok ((textNode comments t texts nxt, false), st') ∧
+      stream st'.p = nxt :: s ∧ st'.p.peekCount ≤ 2 := by
+  obtain ⟨st', a, b, c, _⟩ := textOrTag_text_spec' pf ef fuel untl token st comments t texts nxt s hpc htop hs hc ht hts hn hu hf
+  exact ⟨st', a, b, c⟩
 
 /-! ## the lexer side: where `lexText` cuts a text run
 
